@@ -129,6 +129,13 @@ func TestC19(t *testing.T) {
 			t.Fatalf("panic %v", pan)
 		}
 		inf := query(t1)
+		// the block's own report (the inflation attribute of its Mint event) is the same figure
+		if lastMintEvent != nil {
+			if evInf, err := sdk.NewDecFromStr(unq(lastMintEvent["inflation"])); err != nil || !evInf.Equal(inf) {
+				t.Fatalf("block at t=%d: its Mint event reports inflation %s, the Inflation query in the same block answers %s\ncfg=%s", t1, lastMintEvent["inflation"], inf, jsonStr(cfg))
+			}
+			classes = append(classes, "mint_event_inflation_compared")
+		}
 		supply := w.App.BankKeeper.GetSupply(ctx, cfg.Denom).Amount
 		minted, _, pan := mintBlock(w, ctx, cfg.Denom, t2)
 		if pan != nil {
